@@ -71,10 +71,15 @@ type c01cfg struct {
 	Partitions        uint64
 	TableSize         int
 	ReadRepair        bool
+	Async             bool // asynchronous replication to the backups
 }
 
 func (c c01cfg) String() string {
-	return fmt.Sprintf("N=%d R=%d P=%d T=%d RR=%v", c.Members, c.Replicas, c.Partitions, c.TableSize, c.ReadRepair)
+	s := fmt.Sprintf("N=%d R=%d P=%d T=%d RR=%v", c.Members, c.Replicas, c.Partitions, c.TableSize, c.ReadRepair)
+	if c.Async {
+		s += " async"
+	}
+	return s
 }
 
 func yielder(rng *rand.Rand) func() {
@@ -116,8 +121,13 @@ func TestC01(t *testing.T) {
 		t.Fatal(err)
 	}
 	cfgs := []c01cfg{
-		{3, 1, 7, 0, false}, {3, 2, 7, 0, false}, {3, 3, 13, 0, true},
-		{2, 2, 7, 512, false}, {1, 1, 1, 512, false}, {3, 2, 7, 512, true},
+		{3, 1, 7, 0, false, false}, {3, 2, 7, 0, false, false}, {3, 3, 13, 0, true, false},
+		{2, 2, 7, 512, false, false}, {1, 1, 1, 512, false, false}, {3, 2, 7, 512, true, false},
+	}
+	if envInt("VERIF_C01_ASYNC", 0) == 1 {
+		// exploration only, never part of a verdict: with asynchronous replication a Delete can be overtaken by the
+		// in-flight backup write of the Put before it, and the key comes back (the statement's quantifier does not list the mode)
+		cfgs = append(cfgs, c01cfg{3, 2, 7, 0, false, true})
 	}
 	sum := &summary{Paths: map[string]int{}}
 	seq := 0
@@ -125,7 +135,12 @@ func TestC01(t *testing.T) {
 	ctl := sched.Install(seed)
 	for ci, cfg := range cfgs {
 		c, err := cluster.Start(cluster.Options{Replicas: cfg.Replicas, Partitions: cfg.Partitions, TableSize: cfg.TableSize,
-			ReadRepair: cfg.ReadRepair, Manual: true, Housekeeping: housekeeping(cfg.TableSize)}, cfg.Members)
+			ReadRepair: cfg.ReadRepair, Manual: true, Housekeeping: housekeeping(cfg.TableSize),
+			Tweak: func(c *config.Config) {
+				if cfg.Async {
+					c.ReplicationMode = config.AsyncReplicationMode
+				}
+			}}, cfg.Members)
 		if err != nil {
 			t.Fatalf("cluster %v: %v", cfg, err)
 		}
@@ -491,6 +506,34 @@ func TestC09(t *testing.T) {
 				rec.Run(dmName, scripts, nil)
 				record(w, rec, &seq, sum, seen, trace.Ev{"cfg": cfg, "dmap": dmName}, func(h *History) bool { return true })
 			}
+		}
+		// Mass expiry: a dozen keys of ONE partition expire at the same instant and each is written again (without
+		// expiry) a few milliseconds after the deadline, while the background eviction workers walk that fragment and
+		// are slowed down at their trace points: the rewritten keys must stay.
+		ctl := sched.Install(int64(envInt("VERIF_SEED", 1)))
+		for b := 0; b < envInt("VERIF_MASS", 3); b++ {
+			rec := NewRecorder()
+			var scripts []Script
+			part := uint64(rng.Intn(7))
+			for i, n := 0, 0; n < 12 && i < 5000; i++ {
+				key := fmt.Sprintf("mass%d-%d-%d", R, b, i)
+				if partitions.HKey("c09", key)%7 != part {
+					continue
+				}
+				n++
+				p := paths[rng.Intn(len(paths))]
+				sum.Paths[p.Name()]++
+				sc := Script{Client: fmt.Sprintf("m%d", n), Path: p, Steps: []Step{
+					{Op: "put", Key: key, Val: "a" + key, Opts: PutOpts{Mode: "PX", D: 60 * time.Millisecond}, At: 0},
+					{Op: "put", Key: key, Val: "b" + key, At: time.Duration(63+rng.Intn(60)) * time.Millisecond},
+					{Op: "get", Key: key, At: 350 * time.Millisecond}}}
+				sum.Evaluations += len(sc.Steps)
+				scripts = append(scripts, sc)
+			}
+			ctl.Delays(sched.Rule{Prefix: "del.", Prob: 0.7, Max: 4 * time.Millisecond}, sched.Rule{Prefix: "evict.", Prob: 0.5, Max: 2 * time.Millisecond})
+			rec.Run("c09", scripts, nil)
+			ctl.Delays()
+			record(w, rec, &seq, sum, seen, trace.Ev{"cfg": cfg, "dmap": "c09", "mass_expiry": true}, func(h *History) bool { return true })
 		}
 		for _, p := range paths {
 			p.Close()
